@@ -272,6 +272,9 @@ func checkC10(c *hx.Checker) {
 			if tolFor(k.op, k.dt) == 0 {
 				cmp = hx.Num
 			}
+			if k.op == "Abs" {
+				cmp = hx.Bits // |x| is exact, including the cleared sign of -0
+			}
 			c.Case(info, func() *hx.Violation {
 				return judgeOp(oc, hx.DCompute, []*ref.T{exp}, cmp)
 			})
@@ -295,6 +298,9 @@ func checkC10(c *hx.Checker) {
 			cmp := hx.Ulp(tolFor(op, dt))
 			if tolFor(op, dt) == 0 {
 				cmp = hx.Num
+			}
+			if op == "Abs" {
+				cmp = hx.Bits
 			}
 			shapes := box
 			if dt != ref.F32 {
